@@ -8,6 +8,7 @@ import (
 	"fmt"
 	"io"
 	"os"
+	"path/filepath"
 	"regexp"
 	"runtime"
 	"sort"
@@ -63,6 +64,7 @@ type genInfo struct {
 	Tape   []uint32      `json:"tape"`
 	Def    string        `json:"definition,omitempty"`
 	Stream string        `json:"stream_type"`
+	Shape  string        `json:"shape,omitempty"` // derived tags used in known-finding signatures
 	NReq   int           `json:"requests"`
 	Check  string        `json:"load_violation,omitempty"`
 	Size   *sizeCaseInfo `json:"size_info,omitempty"`
@@ -287,7 +289,8 @@ func TestVerifN(t *testing.T) {
 // (a panic is a violation, an error a legal rejection) and writes a suite file
 // with the loadable ones.
 func nGenerate(job *nJob) []genInfo {
-	dir, err := os.MkdirTemp("", "verif-gen-")
+	// next to the shard's result file (the per-check work directory is wiped by every build)
+	dir, err := os.MkdirTemp(filepath.Dir(job.Out), "verif-gen-")
 	if err != nil {
 		fmt.Fprintln(os.Stderr, err)
 		os.Exit(2)
@@ -332,6 +335,7 @@ func nGenerate(job *nJob) []genInfo {
 			tc = genCase(tp, name, job.GenThorough)
 			info = genInfo{Name: name, Tape: tp.Values(), Stream: tc.Request.StreamType.String(), NReq: len(tc.Request.RequestMessages)}
 			info.Load = genLoadCheck(dir, tc, configCases, mode)
+			info.Shape = genShape(tc)
 		}
 		if def, err := protojson.Marshal(tc); err == nil && (len(def) < 6000 || info.Load != "ok") {
 			info.Def = string(def)
